@@ -79,6 +79,7 @@ type Obligation struct {
 	Text    string // human readable: contract text or instruction
 	SMT     string
 	Pos     string
+	SMTHead string // goal with its lemma hypotheses, assuming only what is known at the loop head (the loop body's assertions dropped: a proof from fewer assumptions is a proof)
 	SMTAlt  string // the same goal without the lemma hypotheses of its clause group (a proof of either is a proof)
 	MustSat bool // canaries / covers: expected sat
 }
@@ -119,6 +120,7 @@ type FnCtx struct {
 	bounded    map[string]bool
 	ghostFuncs map[string]ghostFn
 	stack      []*ssa.Function
+	headMarkForHyps int
 	hyps       []Term // goals already proved at the same program point (step clauses are proved in order, each may use the earlier ones)
 	assumeMode bool // specification currently evaluated is going to be assumed (not proved)
 	trigNames  map[string]string
@@ -178,6 +180,7 @@ type loopInfo struct {
 	hasBreak     bool
 	visited      Term // map-range loops: the set of keys visited before the current iteration (Array K Bool)
 	visitedNext  Term // ... after the current iteration
+	headMark     int // script position right after the invariants have been assumed at the loop head
 	visitedSort  string
 }
 
@@ -233,6 +236,9 @@ func (fx *FnCtx) oblige(kind, name, text string, st *State, goal Term, pos token
 	if len(fx.hyps) > 0 && goal != "true" {
 		ob.SMTAlt = fx.s.render(fx.s.mark(), st.guard, goal, fmt.Sprintf("obligation %s (without lemma hypotheses)\nkind %s\n%s\n%s", full, kind, text, ob.Pos), true)
 		goal = "(=> " + and(fx.hyps...) + " " + goal + ")"
+		if fx.headMarkForHyps > 0 {
+			ob.SMTHead = fx.s.renderHead(fx.headMarkForHyps, fx.s.mark(), st.guard, goal, fmt.Sprintf("obligation %s (from the loop-head assumptions and the step lemmas only)\nkind %s\n%s\n%s", full, kind, text, ob.Pos))
+		}
 	}
 	ob.SMT = fx.s.render(fx.s.mark(), st.guard, goal, fmt.Sprintf("obligation %s\nkind %s\n%s\n%s", full, kind, text, ob.Pos), true)
 	fx.obs = append(fx.obs, ob)
@@ -1187,6 +1193,7 @@ func (fr *Frame) enterLoop(li *loopInfo, pre *State) *State {
 		sv := fr.evalSpec(decr.E, hs, li)
 		li.variant = fx.s.define("variant", "Int", sv.v.t)
 	}
+	li.headMark = fx.s.mark()
 	return hs
 }
 
@@ -1264,6 +1271,7 @@ func (fr *Frame) backEdge(from *ssa.BasicBlock, li *loopInfo, st *State) {
 		}
 	}
 	fr.visitedMode = 2
+	fx.headMarkForHyps = li.headMark
 	for _, c := range invs {
 		fx.s.goal(func() {
 			t := fr.evalClause(c, st, li)
@@ -1272,6 +1280,7 @@ func (fr *Frame) backEdge(from *ssa.BasicBlock, li *loopInfo, st *State) {
 	}
 	fr.visitedMode = 0
 	fx.hyps = nil
+	fx.headMarkForHyps = 0
 	// vacuity guard: this back edge is reachable under everything assumed so far
 	if fr.top && fx.quiet == 0 && st.guard != "false" && (len(invs) > 0 || (fr.fc != nil && len(fr.fc.Steps[li.ordinal]) > 0)) {
 		ob := &Obligation{Name: fmt.Sprintf("%s/cover/loop%d/back-edge", name, li.ordinal), Kind: "cover", Func: fx.topName(), Text: "the end of the loop body is reachable", Props: fr.props(), MustSat: true}
